@@ -1,0 +1,66 @@
+//go:build verif
+
+// Verification hook (build tag "verif" only): exported thin wrappers around the
+// unexported RBAC translation entry points so that an external harness can
+// call them and evaluate the Envoy RBAC protos they return. No behaviour is
+// added or changed; without the tag this file is not compiled.
+
+package xds
+
+import (
+	envoy_listener_v3 "github.com/envoyproxy/go-control-plane/envoy/config/listener/v3"
+	envoy_rbac_v3 "github.com/envoyproxy/go-control-plane/envoy/config/rbac/v3"
+	envoy_http_v3 "github.com/envoyproxy/go-control-plane/envoy/extensions/filters/network/http_connection_manager/v3"
+
+	"github.com/hashicorp/consul/agent/structs"
+	"github.com/hashicorp/consul/proto/private/pbpeering"
+)
+
+// VerifRBACLocalInfo mirrors the fields of rbacLocalInfo that callers in
+// listeners.go fill in (expectXFCC is computed by makeRBACRules itself).
+type VerifRBACLocalInfo struct {
+	TrustDomain string
+	Datacenter  string
+	Partition   string
+}
+
+func (v VerifRBACLocalInfo) local() rbacLocalInfo {
+	return rbacLocalInfo{
+		trustDomain: v.TrustDomain,
+		datacenter:  v.Datacenter,
+		partition:   v.Partition,
+	}
+}
+
+// VerifMakeRBACRules calls makeRBACRules.
+func VerifMakeRBACRules(
+	intentions structs.SimplifiedIntentions,
+	intentionDefaultAllow bool,
+	localInfo VerifRBACLocalInfo,
+	isHTTP bool,
+	peerTrustBundles []*pbpeering.PeeringTrustBundle,
+	providerMap map[string]*structs.JWTProviderConfigEntry,
+) (*envoy_rbac_v3.RBAC, error) {
+	return makeRBACRules(intentions, intentionDefaultAllow, localInfo.local(), isHTTP, peerTrustBundles, providerMap)
+}
+
+// VerifMakeRBACNetworkFilter calls makeRBACNetworkFilter.
+func VerifMakeRBACNetworkFilter(
+	intentions structs.SimplifiedIntentions,
+	intentionDefaultAllow bool,
+	localInfo VerifRBACLocalInfo,
+	peerTrustBundles []*pbpeering.PeeringTrustBundle,
+) (*envoy_listener_v3.Filter, error) {
+	return makeRBACNetworkFilter(intentions, intentionDefaultAllow, localInfo.local(), peerTrustBundles)
+}
+
+// VerifMakeRBACHTTPFilter calls makeRBACHTTPFilter.
+func VerifMakeRBACHTTPFilter(
+	intentions structs.SimplifiedIntentions,
+	intentionDefaultAllow bool,
+	localInfo VerifRBACLocalInfo,
+	peerTrustBundles []*pbpeering.PeeringTrustBundle,
+	providerMap map[string]*structs.JWTProviderConfigEntry,
+) (*envoy_http_v3.HttpFilter, error) {
+	return makeRBACHTTPFilter(intentions, intentionDefaultAllow, localInfo.local(), peerTrustBundles, providerMap)
+}
